@@ -363,7 +363,7 @@ for _m, _dec in (("and", "false"), ("or", "true")):
               f"lhs == Instruction::Variable(Variable::Bool({_dec})) ==> r == Instruction::Variable(Variable::Bool({_dec}))"),
              (f"{_m}.fold.non_deciding_constant_yields_rhs_untouched", ["C04", "C07"],
               f"lhs == Instruction::Variable(Variable::Bool({_nd})) ==> r == rhs"),
-             (f"{_m}.fold.non_constant_rebuilt_in_place", ["C04"],
+             (f"{_m}.fold.non_constant_rebuilt_in_place", ["C04", "C07"],
               f"!(lhs is Variable) ==> r == Instruction::BinOperation(Arc::new(BinOperation {{ lhs, rhs, op: BinOperator::{_m.capitalize()} }}))"),
          ])
     unit(id=f"{_m}.recreate", src=LOGIC, path=[("mod", _m), ("fn", "recreate")], mod=_m,
@@ -373,7 +373,7 @@ for _m, _dec in (("and", "false"), ("or", "true")):
               f"r == Ok::<Instruction, ExecError>(Instruction::Variable(Variable::Bool({_dec}))) && {RS9} == {RS0}"),
              (f"{_m}.recreate.non_deciding_constant_yields_recreated_rhs", ["C04", "C07"],
               f"lhs == Instruction::Variable(Variable::Bool({_nd})) ==> r == rec_res(*rhs, {RS0}) && {RS9} == rec_st(*rhs, {RS0})"),
-             (f"{_m}.recreate.non_constant_rebuilt_in_place", ["C04"],
+             (f"{_m}.recreate.non_constant_rebuilt_in_place", ["C04", "C07"],
               f"!(lhs is Variable) ==> (match rec_res(*rhs, {RS0}) {{ "
               f"Ok(rr) => r == Ok::<Instruction, ExecError>(Instruction::BinOperation(Arc::new(BinOperation {{ lhs, rhs: rr, op: BinOperator::{_m.capitalize()} }}))), "
               f"Err(e) => r == Err::<Instruction, ExecError>(e) }})"),
